@@ -239,6 +239,37 @@ def check_c06(seed, tier):
                 viol.append({"case": {"cfg": cfg}, "what": f"{type(e).__name__}: {e}"[:300], "key": common.failure_site(e)})
             finally:
                 clean()
+    # an image with more lines than the default chunk size (1024) — chunk sizes below, at and above the line count and above
+    # 1024 must all read the same pixels (sampled lines incl. the chunk boundaries) and the same line metadata
+    import time
+    for level in (("1.5",) if tier == "quick" else ("1.1", "1.5")):
+        n, m = rng.choice([1100, 1537]) if tier == "quick" else rng.choice([2049, 2500]), 1
+        cfg = {"seed": rng.randrange(10**9), "level": level, "images": [("HH", None)], "n_lines": n, "n_pixels": m, "n_att": 1, "n_chan": 1, "mapproj": None}
+        prod = products.build(cfg)
+        im = prod.images[0]
+        want = products.twin(im)
+        path, clean = products.place(prod, "memory")
+        try:
+            probes = sorted({0, 1, 1023, 1024, 1025, n // 2, n - 2, n - 1} | ({2047, 2048} if n > 2048 else set()))
+            ref_meta = None
+            for rpc in ([1024, 1500, 2048] if tier == "quick" else [1, 1000, 1024, 1025, 1500, 2048, 4096, 10**6]):
+                evals += 1
+                distinct.add(("large", n, level, rpc))
+                t = _open(path, records_per_chunk=rpc)
+                da = t["imagery/HH/data"]
+                got = da.isel(rows=probes).values
+                if not products.same_bits(got, want[probes]):
+                    bad = [p for p, a, b in zip(probes, got, want[probes]) if not products.same_bits(a, b)]
+                    viol.append({"case": {"cfg": cfg, "rpc": rpc, "lines_probed": probes}, "what": f"lines {bad[:6]} of a {n}-line image do not hold the samples written (records_per_chunk={rpc})"})
+                meta = t["imagery/HH"].rows.values.tolist()
+                if ref_meta is None:
+                    ref_meta = meta
+                elif meta != ref_meta:
+                    viol.append({"case": {"cfg": cfg, "rpc": rpc}, "what": "per-line coordinate 'rows' depends on records_per_chunk"})
+        except Exception as e:  # noqa: BLE001
+            viol.append({"case": {"cfg": cfg}, "what": f"{type(e).__name__}: {e}"[:300], "key": common.failure_site(e)})
+        finally:
+            clean()
     return {"name": "oracle:C06 records_per_chunk independence", "evaluations": evals, "distinct": len(distinct), "violations": viol, "samples": samples}
 
 
